@@ -4,7 +4,7 @@ import copy, glob, hashlib, json, os, random, subprocess, sys, tempfile, threadi
 import networkx as nx
 import gen, record, drivers, tlc, textgen, sched
 from record import Session
-from checks import check, TRACE_CFG, validate_sessions, RULE, count_sessions, enumerated_sessions, mc_cfg
+from checks import check, TRACE_CFG, validate_sessions, RULE, count_sessions, enumerated_sessions, mc_cfg, library_refined_sessions
 import c14_worker
 
 HERE = os.path.dirname(os.path.abspath(__file__))
@@ -75,6 +75,64 @@ def c16(out, tier, rng):
             suspicious = (enforce and set(map(frozenset, res.edges)) == set(map(frozenset, S.objs[o].edges))) or list(res.nodes) != sorted(res.nodes) \
                 or res.number_of_nodes() != g.number_of_nodes()
             if suspicious or j % 300 == 0:
+                S.permute(o, sd)
+        ss.append(S)
+    # label sets other than 0..n-1: a fragment cut out of a larger molecule, hydrogens removed in place, arbitrary integers
+    for i in range(25 if tier == "quick" else 250):
+        g = gen.random_molecule(rng, 9, density=0.35)
+        keep = [a for a in g.nodes if rng.random() < 0.7]
+        if len(keep) < 2:
+            continue
+        kind = i % 3
+        if kind == 0:
+            h = g.subgraph(keep).copy()
+        elif kind == 1:
+            h = g.copy(); h.remove_nodes_from([a for a in g.nodes if a not in keep])
+        else:
+            lab = dict(zip(g.nodes, rng.sample(range(-50, 5000), g.number_of_nodes())))
+            h = nx.relabel_nodes(g, lab, copy=True)
+        for a, b in h.edges:
+            h.edges[a, b].setdefault("bond_type", 1)
+        S = Session(f"permlabels-{i}")
+        o = S.input(h)
+        for sd in rng.sample(seeds, 5):
+            r1 = S.permute(o, sd)
+            r2 = S.permute(o, sd)
+            if r1 and r2:
+                key = f"permute|{o}|{sd!r}"
+                S.result(key, dig(S.objs[r1]), "C16:same-seed-different-result")
+                S.result(key, dig(S.objs[r2]), "C16:same-seed-different-result")
+            if r1 and rng.random() < 0.3:
+                S.permute(r1, rng.choice(seeds))
+        ss.append(S)
+    # permute, move one bond of the argument in place (same atoms, same number of bonds), permute again: the helper answers for
+    # the molecule the object now is
+    for s, move in [("C4/(1-2)(2-3)(3-4)", ((2, 3), (1, 3))), ("C4/(1-2)(2-3)(3-4)", ((0, 1), (1, 3))), ("C5/(1-2)(2-3)(3-4)(4-5)", ((3, 4), (1, 4))),
+                    ("C4O/(1-2)(2-3)(3-4)(4-5)", ((0, 1), (0, 2))), ("C6/(1-2)(2-3)(3-4)(4-5)(5-6)", ((4, 5), (2, 5)))]:
+        try:
+            g = graph_from_tucan(s)
+        except Exception:
+            continue
+        S = Session(f"permedit-{s}-{move}")
+        o = S.input(g)
+        for j in range(6):
+            S.permute(o, j / 7.0)
+        live = S.objs[o]
+        (a, b), (x, y) = move
+        if not live.has_edge(a, b) or live.has_edge(x, y):
+            continue
+        d = dict(live.edges[a, b])
+        live.remove_edge(a, b); live.add_edge(x, y, **d)
+        S.ev.append({"op": "mutate", "obj": o, "g": record.project(live), "newcls": 980000 + o})
+        for j in range(200 if tier == "quick" else 1500):
+            sd = j / 1024.0
+            try:
+                res = record.guarded(lambda: record.tgu.permute_molecule(live, random_seed=sd), 20)
+            except BaseException:  # noqa
+                S.permute(o, sd)
+                break
+            swept += 1
+            if set(map(frozenset, res.edges)) == set(map(frozenset, live.edges)) or list(res.nodes) != sorted(res.nodes) or j % 50 == 0:
                 S.permute(o, sd)
         ss.append(S)
     out.extra["seeds_swept_on_tiny_symmetric_molecules"] = swept
@@ -492,6 +550,8 @@ def c15(out, tier, rng):
                 if t:
                     T.parse(t, of=c)
         ss.append(T)
+    # every graph a user can hold is in the domain: partitioned graphs handed out by the library, renumbered canonical graphs
+    ss += library_refined_sessions(rng, tier, n=14)
     # (2) growth probe: does the depth of the interpreter's stack grow with the size of the molecule?
     probe = {}
     n1, n2 = (120, 360) if tier == "quick" else (200, 800)
